@@ -118,6 +118,24 @@ class BundleInstance:
     def __repr__(self):
         return f"{self.__class__.__name__}(name={self.name} of={self.of})"
 
+    def __copy__(self) -> "BundleInstance":
+        """BundleInstance copying implementation
+        Keeps "public" fields such as name, target, port-ness, flip-state and roles.
+        Each copy is a new instance: it gets its own reference- and connection-tracking data,
+        rather than sharing `refs_to_me` and `_connected_ports` with the original."""
+        cp = BundleInstance(
+            name=self.name,
+            of=self.of,
+            port=self.port,
+            flipped=self.flipped,
+            role=self.role,
+            src=self.src,
+            dest=self.dest,
+            desc=self.desc,
+        )
+        cp.props = Properties(inner=dict(self.props.inner))
+        return cp
+
     def __rmul__(self, num: int) -> List["Self"]:
         """# Right multiplication. Creates `num` copies of ourselves."""
         if not isinstance(num, int):
